@@ -65,12 +65,11 @@ for nm, txt in (("same_nonvert", "same operand, non-vertical predecessor"), ("di
         claim=f"compute_fields inductive step, {txt}: Inv(prev) => Inv(event), selection and transition equal the Boolean function, prev_in_result rule", **CF)
 for nm, tier in (("nonvert_pp0", "quick"), ("nonvert_pp1", "quick"), ("nonvert_pp2", "quick"), ("vert_pp0", "quick"), ("vert_pp1", "quick"),
                  ("nonvert_pp1_older", "thorough"), ("vert_pp1_older", "thorough")):
-    reg(f"cf_twins_{nm}", props={"C14": tier, "C01": tier, "C02": tier},
+    reg(f"cf_twins_{nm}", props={"C14": tier, "C01": tier, "C02": tier, "C06": tier if nm in ("nonvert_pp1", "vert_pp1") else "thorough"},
         claim=f"coincident pair ({nm}: pair verticality, predecessor kind 0 none/1 non-vertical/2 vertical, insertion order): lower/upper twin flags, "
               "typing, exactly one twin in result with the direction of the combined change, Inv(upper twin) for the successor", **CF)
 for _t in ("plain", "same", "diff"):
     reg(f"cf_relational_{_t}", props={"C05": "quick"}, claim=f"({_t} edge) ""the four selection tables related on one flag state: xor = union (+) intersection, difference = union on subject / intersection on clipping edges, shared-edge subsets, directions", **dict(CF, est_s=200))
-reg("cf_selfop_symmetry", props={"C06": "quick"}, claim="pair level: A op A keeps (intersection/union) or drops (difference/xor) every shared edge; commutative operations are symmetric in the operand tags", **CF)
 
 # --------------------------------------------------------------------------------------- L-FILL
 for f in ("f64", "f32"):
@@ -130,6 +129,16 @@ for f in ("f64", "f32"):
         domain="one-ulp lattice: x = 1 + i*ulp(1), i < 3, y in 0..3: near-vertical slivers at the resolution limit, where the one-ulp bump of corner case 1 is live code",
         claim="divide_segment at the resolution limit: same contract; the realised point is the requested one or the documented one-ulp bump (the bump itself is the recorded finding KF4)")
 
+# --------------------------------------------------------------------------------------- G-SWEEP protocol
+SWEEP_MODELS = [("src/boolean/compare_segments.rs", "compare_segments", "crate::boolean::verif_kani::h_sweep::compare_segments_model"),
+                ("src/boolean/compute_fields.rs", "compute_fields", "crate::boolean::verif_kani::h_sweep::compute_fields_model"),
+                ("src/boolean/possible_intersection.rs", "possible_intersection", "crate::boolean::verif_kani::h_sweep::possible_intersection_model")]
+for nm, txt in (("mid_removed", "the middle segment ends first (its removal makes the outer two neighbours)"), ("mid_last", "bottom and top end before the middle one"), ("insert_between", "a segment is inserted between two present ones")):
+    reg(f"sweep_protocol_{nm}", file="boolean/h_sweep.rs", props={"C13": "quick", "C09": "thorough", "C14": "thorough", "C05": "thorough"}, lemma="G-SWEEP(protocol)", inst="f64", unwind=10,
+        est_s=300, cap_s=2400, mem_gb=20, native_models=SWEEP_MODELS,
+        domain=f"template: three stacked disjoint segments, {txt}; operand tags, operation, box limits and all return codes of possible_intersection symbolic; callees replaced by recorders, real BinaryHeap / SplaySet / event order",
+        claim="subdivide's loop: fields from the predecessor, neighbour checks (event,next) and (prev,event) on insertion and (prev,next) after removal, independent of operand tags; recomputation on return code 2; early exit rule; every popped event reported")
+
 # --------------------------------------------------------------------------------------- L-PI
 PI_DIV = ("src/boolean/divide_segment.rs", "divide_segment", "crate::boolean::verif_kani::h_pi::divide_segment_model")
 reg("pi_none", file="boolean/h_pi.rs", props={"C16": "quick", "C13": "quick"}, lemma="L-PI", inst="f64", unwind=3, est_s=60, cap_s=1200, mem_gb=16,
@@ -140,10 +149,12 @@ reg("pi_point", file="boolean/h_pi.rs", props={"C16": "quick", "C13": "quick", "
     native_models=[("src/boolean/segment_intersection.rs", "intersection", "crate::boolean::verif_kani::h_pi::intersection_model_point"), PI_DIV],
     domain="two lattice segments (N x N) with exactly one common point, any tags; intersection() modelled to return Point(p): p = the endpoint for endpoint hits (L-INT), else ANY float point inside both boxes; divide_segment modelled by its L-DIV contract (recorder)",
     claim="possible_intersection, Point arm: 0 and untouched when the segments share their left or right endpoint; else 1 and exactly the segments not having the point as an endpoint are divided, all at that one point; no typing")
-for d in ("horizontal", "vertical", "rising", "falling"):
-    reg(f"pi_overlap_{d}", file="boolean/h_pi.rs", props={"C16": "quick", "C13": "quick", "C06": "quick", "C14": "thorough"}, lemma="L-PI", inst="f64", unwind=12, est_s=300, cap_s=2400, mem_gb=20,
-        domain=f"Overlap arm, {d} line: 9 interval configurations (identical, common left x2, common right x2, partial x2, containment x2) x which segment is the subject + same-operand cases; geometry and tags concrete (templates), in/out flags symbolic; REAL intersection, divide_segment and BinaryHeap",
-        claim="possible_intersection, Overlap arm: same operand -> 0 untouched; else every segment is split at exactly the other's endpoints strictly inside it, return code 2 (common left endpoint: upper twin NonContributing, lower twin Same/DifferentTransition by equal/opposite in_out, twins coincide afterwards) or 3")
+for d, parts in (("horizontal", ("left", "right", "partial", "contain")), ("vertical", ("left", "right", "partial", "contain")), ("rising", ("left", "rest")), ("falling", ("left", "rest"))):
+    for part in parts:
+        tier = "quick" if d in ("horizontal", "vertical") else "thorough"
+        reg(f"pi_overlap_{d}_{part}", file="boolean/h_pi.rs", props={"C16": tier, "C13": tier, "C06": tier if part == "left" else "thorough", "C14": "thorough"}, lemma="L-PI", inst="f64", unwind=6, est_s=400, cap_s=2700, mem_gb=20,
+            domain=f"Overlap arm, {d} line, interval configurations '{part}' (of: identical / common left x2, common right x2, partial x2, containment x2) x which segment is the subject (+ same-operand cases); geometry and tags concrete (templates), in/out flags symbolic; REAL intersection, divide_segment and BinaryHeap",
+            claim="possible_intersection, Overlap arm: same operand -> 0 untouched; else every segment is split at exactly the other's endpoints strictly inside it, return code 2 (common left endpoint: upper twin NonContributing, lower twin Same/DifferentTransition by equal/opposite in_out, twins coincide afterwards) or 3")
 
 # --------------------------------------------------------------------------------------- L-INT
 INT = dict(file="boolean/h_int.rs", unwind=3, lemma="L-INT", mem_gb=16, cap_s=1800,
@@ -199,7 +210,7 @@ for nm in ("drop_left_chain", "drop_right_chain", "clear_left_chain", "clear_rig
         claim=f"{nm}: complete pass (memory safety, no leak of control past the teardown) under a covering bound")
 
 # --------------------------------------------------------------------------------------- C17 L-SPLAY
-SEQ = dict(file="splay/h_seq.rs", lemma="L-SPLAY", unwind=5, inst="SplayTree<u8,u8,fn>", mem_gb=16,
+SEQ = dict(file="splay/h_seq.rs", lemma="L-SPLAY", unwind=3, inst="SplayTree<u8,u8,fn>", mem_gb=16,
            domain="all keys (< 4) and values (u8) symbolic: every key order, duplicate and absent key, hence every tree shape the sequence can reach")
 QTXT = dict(get="get/contains", next="next (successor)", prev="prev (predecessor)", minmax="min/max/len/is_empty", shape="BST shape, node count, len",
             refstab="reference stability of find_key/get results across further lookups", iter="consuming iteration in any mix of directions + size_hint")
@@ -210,6 +221,9 @@ def _seq(name, tier, est):
 for q in ("get", "next", "prev", "minmax", "shape", "refstab", "iter"):
     _seq(f"sp_ii_{q}", "quick", 120)
 _seq("sp_ir_get", "quick", 100); _seq("sp_ir_shape", "quick", 100)
+reg("sp_getmut_index", props={"C17": "quick"}, est_s=200, cap_s=1200, claim="get_mut, Index and IndexMut after two inserts with arbitrary keys agree with the reference", **SEQ)
+reg("sp_extend_clear", props={"C17": "quick"}, est_s=300, cap_s=1500, claim="extend (incl. duplicate keys) then clear then reuse, against the reference; BST shape after extend", **dict(SEQ, unwind=4))
+reg("sp_set_wrappers", props={"C17": "quick"}, est_s=300, cap_s=1500, claim="SplaySet insert/contains/find/next/prev/min/max/len/remove agree with the reference set", **dict(SEQ, inst="SplaySet<u8, closure>"))
 for q in ("get", "next", "prev", "minmax", "shape", "refstab", "iter"):
     _seq(f"sp_iii_{q}", "thorough", 900)
 for nm in ("sp_iir_get", "sp_iir_next", "sp_iir_shape", "sp_iri_shape", "sp_iri_get"):
@@ -222,13 +236,40 @@ PROP_BOUNDS = {}
 PROP_OUTSIDE = {}
 PROP_ASSUMPTIONS = {}
 
+# Explicit quick tiers (the check run on every change): the harnesses most specific to the property,
+# sized so that one property finishes in roughly 5-12 minutes on 16 cores; everything tagged for the
+# property runs in the thorough tier.
+QUICK = {
+    "C01": ["cf_base", "cf_step_same_nonvert", "cf_step_diff_nonvert", "cf_step_same_vert", "cf_step_diff_vert", "cf_twins_nonvert_pp1", "dispatch_predicate", "dispatch_named_methods"],
+    "C02": ["nest_cases_flat", "nest_cases_h20", "nest_cases_h21", "nest_cases_h10", "nest_cases_h10_h20", "cf_twins_nonvert_pp1", "cf_twins_vert_pp1", "cf_step_diff_nonvert", "cf_step_same_vert", "iter_order_n3", "iter_order_n4"],
+    "C03": ["nest_index_unassigned_outin", "nest_index_unassigned_inout", "divide_contract_f64", "divide_ulp_f64", "dispatch_empty_subject", "dispatch_empty_clipping", "dispatch_empty_both"],
+    "C04": ["int_classify_f32", "pi_point", "iter_order_n3", "iter_order_n4", "divide_contract_f64"],
+    "C05": ["cf_relational_plain", "cf_relational_same", "cf_relational_diff", "fill_ids_2h_2h", "fill_ids_1_1h"],
+    "C06": ["dispatch_predicate", "dispatch_empty_subject", "dispatch_empty_clipping", "dispatch_empty_both", "dispatch_union_multi1_multi1", "cf_twins_nonvert_pp1", "pi_overlap_horizontal_left", "pi_overlap_vertical_left"],
+    "C07": ["dispatch_forward_poly_multi2", "dispatch_forward_multi2_multi1", "dispatch_forward_multi2_poly", "dispatch_named_methods", "fill_edge_f64", "fill_ids_2h_2h", "fill_ids_1_1h", "fill_ids_0_2", "fill_ids_2_0"],
+    "C08": ["int_scale_f32"],
+    "C10": ["nextafter_f64", "nextafter_f32", "int_classify_f32", "int_agree"],
+    "C13": ["fill_edge_f64", "fill_ids_2h_2h", "fill_ids_0_2", "divide_contract_f64", "pi_none", "pi_point", "pi_overlap_horizontal_left", "pi_overlap_vertical_partial", "pi_overlap_vertical_contain", "sweep_protocol_mid_removed"],
+    "C14": ["cf_base", "cf_step_same_nonvert", "cf_step_diff_nonvert", "cf_step_same_vert", "cf_step_diff_vert", "cf_twins_nonvert_pp0", "cf_twins_nonvert_pp1", "cf_twins_nonvert_pp2", "cf_twins_vert_pp0", "cf_twins_vert_pp1"],
+    "C15": ["evord_ll_f64", "evord_lr_f64", "evord_rr_f64", "segord_pair_f32_n3"],
+    "C16": ["int_classify_f32", "int_swap_f32", "divide_contract_f64", "divide_ulp_f64", "pi_none", "pi_point", "pi_overlap_vertical_left", "pi_overlap_vertical_right", "pi_overlap_vertical_partial", "pi_overlap_vertical_contain", "pi_overlap_horizontal_partial"],
+    "C17": ["sp_ii_get", "sp_ii_next", "sp_ii_prev", "sp_ii_minmax", "sp_ii_shape", "sp_ii_refstab", "sp_ii_iter", "sp_ir_get", "sp_ir_shape", "sp_getmut_index", "sp_extend_clear", "sp_set_wrappers"],
+}
+
 PROPS = {}
 for name, h in H.items():
     for pid, t in h["props"].items():
         PROPS.setdefault(pid, {"quick": [], "thorough": []})
-        if t == "quick":
+        if t == "quick" and pid not in QUICK:
             PROPS[pid]["quick"].append(name)
         PROPS[pid]["thorough"].append(name)
+for pid, names in QUICK.items():
+    for n in names:
+        assert n in H, n
+        H[n]["props"].setdefault(pid, "quick")
+        if n not in PROPS.setdefault(pid, {"quick": [], "thorough": []})["thorough"]:
+            PROPS[pid]["thorough"].append(n)
+    PROPS[pid]["quick"] = list(names)
 
 
 def harnesses_for(prop, tier, seed=0):
